@@ -109,7 +109,7 @@ func registerAll() {
 	propTable["C05"] = &PropSpec{
 		ID:    "C05",
 		Rules: []string{"L5", "L6", "L9", "L13", "L14", "L17", "L7"},
-		Explanation: "for EVERY slab size t in [minSlabSize, maxSlabSize] (affine-interval abstract interpretation of setThreshold, not a sample): minThreshold is t/2, maxThreshold is 1.5t and fits the 16-bit size fields, two maximal array elements plus the slab prefix fit in t, two maximal map elements plus digests and prefixes fit in t, a maximal key plus an equal value fit the element limit, and no unsigned subtraction underflows; every element is materialised with the limit of its container kind; every mutation path runs the full / underflow decision and refreshes the index data it summarises (sizes, counts, cumulative counts, header copies).",
+		Explanation: "for EVERY slab size t in [minSlabSize, maxSlabSize] (affine-interval abstract interpretation of setThreshold, not a sample): minThreshold is t/2, maxThreshold is 1.5t and fits the 16-bit size fields, two maximal array elements plus the slab prefix fit in t, two maximal map elements plus digests and prefixes fit in t, a maximal key plus an equal value fit the element limit, and no unsigned subtraction underflows; every element is materialised with the limit of its container kind; every mutation path runs the full / underflow decision and refreshes the index data it summarises (sizes, counts, cumulative counts, header copies). The batch builders build the next tree level only from at least two slabs and merge / rebalance the underfull last slab of a level on the correct decision edges.",
 		NotDecided: "that split, lend/borrow and merge choose points that keep both sides inside the band (depends on element sizes); sortedness/uniqueness of digests and sibling links (value-level).",
 		Technique:  "affine-interval abstract interpretation (exhaustive over the symbolic slab size), value-flow checks on Storable() limits, must-pass-through path rules",
 	}
@@ -137,7 +137,7 @@ func registerAll() {
 	propTable["C16"] = &PropSpec{
 		ID:    "C16",
 		Rules: []string{"G1", "G2", "G3", "G4", "G5", "D4"},
-		Explanation: "every goroutine body's transitive may-effect set has no write to storage, container, slab or global state and no write through captured variables; maps read by workers are written by the launcher only after a receive loop counted to the number of queued jobs; workers defer wg.Done, wg.Add(n) dominates a loop launching n workers, close(results) is deferred after wg.Wait, job/result channels are buffered; after a non-deferred put no use of the pooled object or an alias is reachable (up to re-definition), with a deferred put no alias escapes; objects are Reset before Pool.Put; no package variable can be written after init through any API function.",
+		Explanation: "every goroutine body's transitive may-effect set has no write to storage, container, slab or global state and no write through captured variables; maps read by workers are written by the launcher only after a receive loop counted to the number of queued jobs; workers defer wg.Done, wg.Add(n) dominates a loop launching n workers, close(results) is deferred after wg.Wait, job/result channels are buffered; after a non-deferred put no use of the pooled object or an alias is reachable (up to re-definition), with a deferred put no alias escapes; objects are Reset before Pool.Put; no package variable can be written after init through any API function. A pooled object is put at most once per Get (no non-deferred put beside a deferred one); the result channel has the capacity of the job queue whenever workers send unconditionally.",
 		NotDecided: "sequential equality of the results of a concurrent run (only through C04), races inside client callbacks, retention of pooled objects by callees.",
 		Technique:  "may-effect summaries over the call graph, dominance by drain-loop exits, alias taint for pooled objects",
 	}
@@ -151,28 +151,28 @@ func registerAll() {
 	propTable["C11"] = &PropSpec{
 		ID:    "C11",
 		Rules: []string{"R7", "N1", "N2", "N4", "N3", "R3"},
-		Explanation: "every Storable returned by an exported Array/OrderedMap method is the result of uninlineStorableIfNeeded (so a detached inlined child becomes a stored standalone slab) and that helper uninlines both slab kinds; the mutableElementIndex entry of a removed/overwritten child is deleted, guarded only by identity tests; parent-updater callbacks re-set the child only on paths that passed the true edge of a ValueID.equal test and after a fresh lookup; parentUpdater is assigned only by setParentUpdater and cleared only on the not-found edge of its own invocation.",
+		Explanation: "every Storable returned by an exported Array/OrderedMap method is the result of uninlineStorableIfNeeded (so a detached inlined child becomes a stored standalone slab) and that helper uninlines both slab kinds; the mutableElementIndex entry of a removed/overwritten child is deleted, guarded only by identity tests; parent-updater callbacks re-set the child only on paths that passed the true edge of a ValueID.equal test and after a fresh lookup; parentUpdater is assigned only by setParentUpdater and cleared only on the not-found edge of its own invocation. The identity predicate ValueID.equal(SlabID) is the conjunction of address equality and index equality on the right halves of the value id; a bulk pop resets the child index.",
 		NotDecided: "that re-validation compares the right element after arbitrary histories; equality of identity after reattachment.",
 		Technique:  "value-flow on return operands, control-dependence slices, edge-restricted reachability in callback closures",
 	}
 	propTable["C06"] = &PropSpec{
 		ID:    "C06",
 		Rules: []string{"L1", "L2", "L16", "L7", "L8"},
-		Explanation: "each prefix / stride size constant equals, by value, the number of bytes its encoder writes outside child elements and extra-data sections (abstract interpretation of every slab and element encoder: fixed-width writes, per-entry loop bytes, spliced helper encoders, two-pass element buffer emitted exactly once); the only conditional group of a data-slab encoder is the sibling link and it is exactly the difference between the non-root and root constants (the documented 16-byte saving); the compact inlined-map form has the same inlined prefix and no fixed per-element bytes, so it can only be shorter; decoders start a decoded slab's size from the same prefix getPrefixSize() returns for that state (root / non-root / inlined); every write of an element list or the inlined flag is accompanied by a size update on all success paths.",
+		Explanation: "each prefix / stride size constant equals, by value, the number of bytes its encoder writes outside child elements and extra-data sections (abstract interpretation of every slab and element encoder: fixed-width writes, per-entry loop bytes, spliced helper encoders, two-pass element buffer emitted exactly once); the only conditional group of a data-slab encoder is the sibling link and it is exactly the difference between the non-root and root constants (the documented 16-byte saving); the compact inlined-map form has the same inlined prefix and no fixed per-element bytes, so it can only be shorter; decoders start a decoded slab's size from the same prefix getPrefixSize() returns for that state (root / non-root / inlined); every write of an element list or the inlined flag is accompanied by a size update on all success paths. Every cached size that is established or re-based (slab literals, absolute and re-basing assignments, computed size functions) carries, in its constant part, the encoded prefix of the object kind in the state before / after (root, non-root, inlined for data slabs; one prefix plus whole per-entry constants for every other kind).",
 		NotDecided: "that the incremental += / -= bookkeeping sums to the same total on every history (value-level); honesty of client Storable.ByteSize().",
 		Technique:  "abstract interpretation of encoder write widths over go/ssa, per-state constant-part evaluation of decoder size expressions, co-update path rule",
 	}
 	propTable["C07"] = &PropSpec{
 		ID:    "C07",
 		Rules: []string{"L3", "L4", "L11", "L15", "L1", "X1"},
-		Explanation: "header flags: each setter/getter pair uses the same byte and single-bit mask, disjoint from type and version bits; each slab encoder sets each flag exactly under the state it describes (root <=> extra data, has-pointers <=> HasPointer(), next <=> sibling link, any-size <=> anySize, inlined-slabs <=> collected extra data) and the V1 decoders and raw-bytes queries consult exactly those flags; vocabularies coincide: every CBOR tag emitted is dispatched (in-package or, by table, by the client decoder) and vice versa, tag numbers are distinct, slab kinds emitted equal kinds dispatched by DecodeSlab, encoders emit version 1 and decoders accept exactly versions 0 and 1; encoders use fixed-width heads matching the size constants; decode dispatch covers every element kind.",
+		Explanation: "header flags: each setter/getter pair uses the same byte and single-bit mask, disjoint from type and version bits; each slab encoder sets each flag exactly under the state it describes (root <=> extra data, has-pointers <=> HasPointer(), next <=> sibling link, any-size <=> anySize, inlined-slabs <=> collected extra data) and the V1 decoders and raw-bytes queries consult exactly those flags; vocabularies coincide: every CBOR tag emitted is dispatched (in-package or, by table, by the client decoder) and vice versa, tag numbers are distinct, slab kinds emitted equal kinds dispatched by DecodeSlab, encoders emit version 1 and decoders accept exactly versions 0 and 1; encoders use fixed-width heads matching the size constants; decode dispatch covers every element kind. The key under which the encoder shares one extra-data entry between inlined containers depends on the encoded type information and on every field name, so containers of different type never share an entry.",
 		NotDecided: "byte-for-byte round trip of arbitrary nested content, compact-map ordering, rejection of trailing bytes.",
 		Technique:  "mask/guard checks on go/ssa, AST vocabulary comparison of encoder and decoder sides, encoder width interpretation",
 	}
 	propTable["C08"] = &PropSpec{
 		ID:    "C08",
 		Rules: []string{"R1", "S3", "S7", "S8", "S9", "L2", "L11", "X7"},
-		Explanation: "a slab served from the read cache (or decoded) that is then mutated re-enters the write set because every mutation ends in a store of that object on every success path; commit moves the very same object from the write set into the cache (nil after a deletion) and only on the success edge; apart from that only DecodeSlab results under the same id enter the cache, controlled by the cache flag; lookups consult write set, cache, ledger in that order and a hit returns the found entry; observers cannot reach a writer of the write set.",
+		Explanation: "a slab served from the read cache (or decoded) that is then mutated re-enters the write set because every mutation ends in a store of that object on every success path; commit moves the very same object from the write set into the cache (nil after a deletion) and only on the success edge; apart from that only DecodeSlab results under the same id enter the cache, controlled by the cache flag; lookups consult write set, cache, ledger in that order and a hit returns the found entry; observers cannot reach a writer of the write set. Decoded slabs, element lists and extra data never alias the slab-wide inlined extra data (no slice, map or pointer reachable from it by loads alone is stored into them).",
 		NotDecided: "equality of decoded and original content (C07) and the compact-map reload exception; byte-identity under all schedules.",
 		Technique:  "typestate over slab objects + field-write ownership + dominance of lookups",
 	}
@@ -186,21 +186,21 @@ func registerAll() {
 	propTable["C12"] = &PropSpec{
 		ID:    "C12",
 		Rules: []string{"K1", "K2", "R6", "X1", "R1", "R3", "L9"},
-		Explanation: "the collision-limit rejection is control dependent on level == 0, on a comparison with maxCollisionLimitPerDigest and on errors.As(KeyNotFoundError) of Get with the same key parameter (so updates of existing keys are never refused), and no mutation, store or allocation precedes it on any path; every element kind (single element, inline group, external group) and both element-list kinds are handled by every family type switch or by an erroring default.",
+		Explanation: "the collision-limit rejection is control dependent on level == 0, on a comparison with maxCollisionLimitPerDigest and on errors.As(KeyNotFoundError) of Get with the same key parameter (so updates of existing keys are never refused), and no mutation, store or allocation precedes it on any path; every element kind (single element, inline group, external group) and both element-list kinds are handled by every family type switch or by an erroring default. Collision groups and element lists report their true entry counts (the limit counts entries through element.Count).",
 		NotDecided: "dictionary semantics under arbitrary digest assignments; correctness of spill/collapse transitions (value-dependent).",
 		Technique:  "control-dependence slices and backward reachability on go/ssa; type-switch exhaustiveness",
 	}
 	propTable["C13"] = &PropSpec{
 		ID:    "C13",
 		Rules: []string{"X4", "I2", "I3", "X1", "X8", "R5", "R6"},
-		Explanation: "every exit of an iterator Next method that hands out an element is preceded on all paths by a cursor advance; range constructors reject start > end and bounds beyond the count before building an iterator and leave no trace; Next/NextKey/NextValue of each iterator type write the same cursor fields (no flavour can skip or repeat relative to its siblings); every slab/element kind is handled by the iterator type switches (no silent skip); mutable iteration hands out children with the parent callback installed, read-only iterators arm the mutation error on every element.",
+		Explanation: "every exit of an iterator Next method that hands out an element is preceded on all paths by a cursor advance; range constructors reject start > end and bounds beyond the count before building an iterator and leave no trace; Next/NextKey/NextValue of each iterator type write the same cursor fields (no flavour can skip or repeat relative to its siblings); every slab/element kind is handled by the iterator type switches (no silent skip); mutable iteration hands out children with the parent callback installed, read-only iterators arm the mutation error on every element. A comma-ok downcast of a slab / element / element-list value to one family member never returns success early on the not-ok edge (no member of the family is silently skipped while looking for the next element).",
 		NotDecided: "exactly-once, canonical order and the loaded-subset subsequence property (value-level).",
 		Technique:  "may-effect comparison of sibling methods, type-switch exhaustiveness, must-pass-through path rule",
 	}
 	propTable["C17"] = &PropSpec{
 		ID:    "C17",
 		Rules: []string{"X5", "X6", "R1", "R2", "L14", "L17"},
-		Explanation: "for every type with a can-copy/copy pair the predicate is constant false exactly when the operation fails on every path, and non-constant predicates refuse on exactly the receiver state the operation fails on (the rest is delegated to the elements' own pair); every slice/map/pointer field of a copy receives a fresh or cloned value, never one loaded from the source.",
+		Explanation: "for every type with a can-copy/copy pair the predicate is constant false exactly when the operation fails on every path, and non-constant predicates refuse on exactly the receiver state the operation fails on (the rest is delegated to the elements' own pair); every slice/map/pointer field of a copy receives a fresh or cloned value, never one loaded from the source. The batch builders build the next tree level only from at least two slabs (tested on the slice after the tail merge) and merge / rebalance the underfull last slab of a level on the correct decision edges.",
 		NotDecided: "equality of content, validity 'as if built by individual operations' (tail-rebalance arithmetic), byte-array conversions.",
 		Technique:  "return-constant and control-dependence comparison of sibling methods; alias check on stores into the fresh result",
 	}
@@ -221,7 +221,7 @@ func registerAll() {
 	propTable["C20"] = &PropSpec{
 		ID:    "C20",
 		Rules: []string{"X1", "X2", "X3", "S9"},
-		Explanation: "reference enumeration is complete over slab/element kinds (type switches) and over reference-bearing fields (ChildStorables coverage); the three walkers recognise SlabIDStorable and descend through nested storables; getAllChildReferences splits broken from resolved references by the found flag; each failure mode of the property (second parent, owner mismatch, missing slab, root count, unreachable slab) controls an error return of CheckStorageHealth; the checker and the reference query cannot reach a writer of the write set or of registers.",
+		Explanation: "reference enumeration is complete over slab/element kinds (type switches) and over reference-bearing fields (ChildStorables coverage); the three walkers recognise SlabIDStorable and descend through nested storables; getAllChildReferences splits broken from resolved references by the found flag; each failure mode of the property (second parent, owner mismatch, missing slab, root count, unreachable slab) controls an error return of CheckStorageHealth; the checker and the reference query cannot reach a writer of the write set or of registers. getAllChildReferences queues the children of every resolved slab on every path; CheckStorageHealth resolves every recorded reference against the slabs of the storage, not only those on a path from a childless slab to a root.",
 		NotDecided: "that the predicates are evaluated on the right ids for every storage (value-level).",
 		Technique:  "structural shape rules over go/ssa + call-graph reachability",
 	}
